@@ -7,6 +7,9 @@ usage: try_seed.py SRC_DIR DEMO_HOST_FILE "C06 C13 .." [--keep NAME]
   With --keep NAME the seed is stored as /verif/seeded/NAME/ with meta.json."""
 import json, os, shutil, subprocess, sys, time
 src, host, ids = sys.argv[1], sys.argv[2], sys.argv[3].split()
+if host == 'auto':
+    first = open(os.path.join(src, 'notes.md')).readline()
+    host = first.split('host:', 1)[1].strip().strip('`')
 keep = sys.argv[sys.argv.index('--keep') + 1] if '--keep' in sys.argv else None
 R = '/repo'
 def sh(cmd, **kw):
